@@ -81,6 +81,30 @@ CLAIMED.update({
         ref='§4 C06'),
 })
 
+CLAIMED.update({
+    'C04': dict(
+        text='Theorems over the whole path payload -> displayed section (every environment, every payload): each fallback (no module, plugins '
+             'disabled, module raises, module returns None, built-in sub-type other than JSON/text, unrecognised section type) shows header keys '
+             '(+ Error note) + "Data" = the hex dump of exactly the payload, whose lines parse back to the payload; built-in text = the lines '
+             'of the stripped text with only non-printables replaced (loop = split/map spec); built-in JSON object members are all displayed, '
+             'other JSON values under Data; round trip for any document printed by json.dumps; never_dropped case analysis. Correspondence: '
+             'real parsePEL with fixture parser modules (echo / raise / None / invalid text / valid text) on and off, all creators/components, '
+             'payloads of JSON, text, random bytes; the property is also checked directly with the real hexdump.parse on the displayed dump.',
+        note=BASE + 'User JSON with floats is outside the model (counted and skipped). A built-in JSON/text payload that is not UTF-8 makes the decoder reject the PEL (cleanly): the model follows the code; the property does not cover that case.',
+        technique='Lean 4 proof (case analysis over the dispatch, accumulator-generalised loop lemma, reuse of C06/C13 round trips) + differential correspondence',
+        ref='§4 C04'),
+    'C20': dict(
+        text='Theorems: for all 2^96 signatures in either hex case the chip position/node/attention/signature id/instance/bit used for display '
+             'and look-up are exactly the stated byte fields; with no chip data the three strings are the raw numbers; look-ups are case-insensitive; '
+             'fall-backs for unknown chip / missing signature; the SRC parser uses words 6..8 and reference-code characters 6..7; signature lists and '
+             'register dumps of any shape are listed completely and in order with exactly their data bytes (ungrouping lemma); scratch sections and '
+             'callout FFDC reproduce their values. Correspondence: real ParserData / udparsers.oe500 / srcparsers.oe500 with chip-data fixtures '
+             '(absent, full, partial) installed through pel.hwdiags.data.__file__.',
+        note=BASE + 'Chip data files are assumed well-typed JSON of the documented shape with plain-hex register addresses.',
+        technique='Lean 4 proof (hex-word slicing lemmas, reader-chain inductions) + differential correspondence',
+        ref='§4 C20'),
+})
+
 PENDING = {
 }
 
